@@ -9,6 +9,12 @@
 //
 //	seq  (seq_test.go)  — one heartbeat at a time, oracle after every heartbeat, cache and storage
 //	conc (conc_test.go) — rounds of 2-8 concurrent deliveries + snapshot pollers, order independent facts
+//
+// Configuration dimensions of the fixture's core.Storage (generated): encryption at
+// rest (enc_test.go) and the region storage (rs_test.go): built without a region
+// storage object (what every core.NewStorage(kv) fixture of pd's own tests does), or
+// the way server.go builds it — core.WithRegionStorage(leveldb) always — and then
+// switched on (pd-server.use-region-storage = true, the default) or off.
 package c06
 
 import (
@@ -24,6 +30,7 @@ import (
 	"github.com/tikv/pd/server/cluster"
 	"github.com/tikv/pd/server/config"
 	"github.com/tikv/pd/server/core"
+	"github.com/tikv/pd/server/encryptionkm"
 	"github.com/tikv/pd/server/kv"
 	"github.com/tikv/pd/server/versioninfo"
 	"pdverif/vkit"
@@ -33,7 +40,7 @@ import (
 
 func TestMain(m *testing.M) {
 	vkit.SilenceLog()
-	vkit.MainWith(m, "C06", encCleanup)
+	vkit.MainWith(m, "C06", func() { encCleanup(); rsCleanup() })
 }
 func TestProp(t *testing.T)   { vkit.RunAll(t) }
 func TestReplay(t *testing.T) { vkit.RunReplay(t) }
@@ -66,7 +73,12 @@ type Ev struct {
 // heartbeat (the heartbeat itself still succeeds, storage lags); K=="restart" replaces
 // the RaftCluster: A%2==0 cold (fresh BasicCluster, same storage, LoadClusterInfo = PD
 // restart), A%2==1 warm (same BasicCluster and storage, LoadClusterInfo = re-election
-// with use-region-storage=false). The history continues on the new object.
+// with use-region-storage=false). The history continues on the new object. With the
+// region storage switched on (Case.RS == rsOn) a cold restart is a new process: the
+// leveldb handle is closed (A%4==0: Storage.Close, which flushes; A%4==2: a crash, the
+// unflushed batch is lost) and reopened under a new core.Storage; a warm one keeps the
+// Storage, whose LoadRegionsOnce loads only the first time. K=="flush" is Storage.Flush()
+// (what the region storage's background timer does 3 s after the last save).
 type Dl struct {
 	K string `json:"k"`
 	I int    `json:"i"`
@@ -78,6 +90,7 @@ type Case struct {
 	Collide bool `json:"collide,omitempty"` // peer ids from their own counter (collide with store/region ids)
 	NoTerm  bool `json:"noterm,omitempty"`  // TiKV older than 3.0: term never reported
 	Enc     int  `json:"enc,omitempty"`     // encryption at rest: 0 off, 1..3 = aes128/192/256-ctr
+	RS      int  `json:"rs,omitempty"`      // region storage: 0 no object, 1 object present and switched on, 2 present and switched off
 	Events  []Ev `json:"ev"`
 	Dels    []Dl `json:"dl"`
 }
@@ -110,6 +123,8 @@ func genBase(t *rapid.T, maxEv int, faults bool) Case {
 	if rapid.IntRange(0, 2).Draw(t, "encrypted") == 0 {
 		c.Enc = rapid.IntRange(1, 3).Draw(t, "encMethod")
 	}
+	// region storage: none 40%, server.go construction switched on 30% / off 30%
+	c.RS = []int{rsNone, rsNone, rsNone, rsNone, rsOn, rsOn, rsOn, rsOff, rsOff, rsOff}[rapid.IntRange(0, 9).Draw(t, "regionStorage")]
 	n := rapid.IntRange(10, maxEv).Draw(t, "nEv")
 	for i := 0; i < n; i++ {
 		c.Events = append(c.Events, Ev{
@@ -165,13 +180,15 @@ func genBase(t *rapid.T, maxEv int, faults bool) Case {
 			case 0, 1, 2, 3:
 				c.Dels = append(c.Dels, Dl{K: "fail", A: rapid.SampledFrom([]int{0, 0, 0, 1, 1, 2}).Draw(t, "failNth")})
 			case 4:
-				c.Dels = append(c.Dels, Dl{K: "restart", A: rapid.IntRange(0, 1).Draw(t, "warm")})
+				c.Dels = append(c.Dels, Dl{K: "restart", A: rapid.IntRange(0, 3).Draw(t, "warm")})
 			case 5:
 				// a failed write directly followed by a restart
 				c.Dels = append(c.Dels, Dl{K: "fail", A: rapid.SampledFrom([]int{0, 0, 0, 1, 1, 2}).Draw(t, "failNth")})
 				c.Dels = append(c.Dels, it.d)
-				c.Dels = append(c.Dels, Dl{K: "restart", A: rapid.IntRange(0, 1).Draw(t, "warm")})
+				c.Dels = append(c.Dels, Dl{K: "restart", A: rapid.IntRange(0, 3).Draw(t, "warm")})
 				continue
+			case 6:
+				c.Dels = append(c.Dels, Dl{K: "flush"})
 			}
 		}
 		c.Dels = append(c.Dels, it.d)
@@ -226,20 +243,26 @@ type fixture struct {
 	mem     kv.Base       // the oracle reads here
 	enc     int           // encryption at rest method (0 = off)
 	fresh   uint64        // ids of fabricated regions, far away from the simulator's counter
+
+	rsMode     int                      // rsNone / rsOn / rsOff
+	rs         *core.RegionStorage      // the leveldb region storage (nil with rsNone); raw reads go to its LeveldbKV
+	rsDir      string                   // its directory
+	km         *encryptionkm.KeyManager // shared by Storage and RegionStorage, as in server.go
+	loadedOnce bool                     // rsOn: this Storage has already run LoadRegionsOnce
 }
 
 // errFixture marks a fixture that could not be set up (etcd / key manager): inconclusive.
 var errFixture = fmt.Errorf("fixture unavailable")
 
-func newFixture(stores int, enc int) (*fixture, error) {
-	var sopts []core.StorageOption
+func newFixture(stores int, enc int, rsMode int) (*fixture, error) {
+	var km *encryptionkm.KeyManager
 	if enc = mod(enc, 4); enc > 0 {
-		km, err := keyManager(enc)
-		if err != nil {
+		var err error
+		if km, err = keyManager(enc); err != nil {
 			return nil, errFixture
 		}
-		sopts = append(sopts, core.WithEncryptionKeyManager(km))
 	}
+	rsMode = mod(rsMode, 3)
 	cfg := config.NewConfig()
 	if err := cfg.Adjust(nil, false); err != nil {
 		return nil, err
@@ -249,18 +272,23 @@ func newFixture(stores int, enc int) (*fixture, error) {
 	ctx, cancel := context.WithCancel(context.Background())
 	mem := kv.NewMemoryKV()
 	fkv := faultkv.New(mem)
-	f := &fixture{cancel: cancel, opt: opt, mem: mem, fkv: fkv, storage: core.NewStorage(fkv, sopts...), enc: enc, bc: core.NewBasicCluster(), fresh: 1 << 40}
+	f := &fixture{cancel: cancel, opt: opt, mem: mem, fkv: fkv, enc: enc, km: km, rsMode: rsMode, bc: core.NewBasicCluster(), fresh: 1 << 40}
+	if err := f.openStorage(); err != nil {
+		cancel()
+		f.rsClose()
+		return nil, err
+	}
 	f.rc = cluster.NewRaftCluster(ctx, "", 1, nil, nil, nil)
 	f.rc.InitCluster(mockid.NewIDAllocator(), opt, f.storage, f.bc)
 	// a bootstrapped cluster: meta and stores are persisted (LoadClusterInfo needs them)
 	if err := f.storage.SaveMeta(&metapb.Cluster{Id: 1, MaxPeerCount: 3}); err != nil {
-		cancel()
+		f.close()
 		return nil, err
 	}
 	for i := 1; i <= stores; i++ {
 		st := &metapb.Store{Id: uint64(i), Address: fmt.Sprintf("127.0.0.1:%d", i), State: metapb.StoreState_Up, Version: "4.0.0"}
 		if err := f.storage.SaveStore(st); err != nil {
-			cancel()
+			f.close()
 			return nil, err
 		}
 		f.bc.PutStore(core.NewStoreInfo(st))
@@ -269,7 +297,10 @@ func newFixture(stores int, enc int) (*fixture, error) {
 	return f, nil
 }
 
-func (f *fixture) close() { f.cancel() }
+func (f *fixture) close() {
+	f.cancel()
+	f.rsClose()
+}
 
 // restart replaces the RaftCluster the way a PD restart (cold: empty cache) or a won
 // leader election without region storage (warm: the cache object survives) does:
@@ -287,6 +318,7 @@ func (f *fixture) restart(cold bool) error {
 		cancel()
 		return fmt.Errorf("LoadClusterInfo = %v, %v", got != nil, err)
 	}
+	f.loadedOnce = true
 	old := f.cancel
 	f.rc, f.bc, f.cancel = rc, bc, cancel
 	old()
